@@ -1265,13 +1265,13 @@ func ruleNoStaleReadAcrossUnlock(c *Check, rule string, progs []*Prog) {
 			if st == nil {
 				continue
 			}
-			mu := ""
+			var mus []string
 			for i := 0; i < st.NumFields(); i++ {
 				if isMutexT(st.Field(i).Type()) {
-					mu = fieldLabel(recv.Type(), i)
+					mus = append(mus, fieldLabel(recv.Type(), i))
 				}
 			}
-			if mu == "" {
+			if len(mus) == 0 {
 				continue
 			}
 			key := fnName(fn)
@@ -1286,6 +1286,7 @@ func ruleNoStaleReadAcrossUnlock(c *Check, rule string, progs []*Prog) {
 			}
 			var loads []ld
 			var writes []ssa.Instruction
+			sliceLoad := map[*ssa.UnOp]bool{}
 			isRecvField := func(v ssa.Value) (string, bool) {
 				fa, ok := v.(*ssa.FieldAddr)
 				if !ok || fa.X != ssa.Value(recv) {
@@ -1324,6 +1325,11 @@ func ruleNoStaleReadAcrossUnlock(c *Check, rule string, progs []*Prog) {
 								switch x.Type().Underlying().(type) {
 								case *types.Basic:
 									loads = append(loads, ld{x, l})
+								case *types.Slice:
+									// a slice header is a snapshot of (pointer, length): written back
+									// after a release it undoes what was appended meanwhile
+									loads = append(loads, ld{x, l})
+									sliceLoad[x] = true
 								}
 							}
 						}
@@ -1368,9 +1374,19 @@ func ruleNoStaleReadAcrossUnlock(c *Check, rule string, progs []*Prog) {
 				}
 				for _, w := range writes {
 					uses := false
-					for _, op := range w.Operands(nil) {
-						if op != nil && *op != nil && slice[*op] {
-							uses = true
+					if sliceLoad[l.in] {
+						// only the value written back counts (indexing into the loaded slice to
+						// find the place of a write is the ordinary use of a container)
+						if st, ok := w.(*ssa.Store); ok && slice[st.Val] {
+							if _, isSl := st.Val.Type().Underlying().(*types.Slice); isSl {
+								uses = true
+							}
+						}
+					} else {
+						for _, op := range w.Operands(nil) {
+							if op != nil && *op != nil && slice[*op] {
+								uses = true
+							}
 						}
 					}
 					if !uses {
@@ -1392,7 +1408,38 @@ func ruleNoStaleReadAcrossUnlock(c *Check, rule string, progs []*Prog) {
 							wn = nd
 						}
 					}
-					if ln == nil || wn == nil || !heldAt(g, ln, mu) || !heldAt(g, wn, mu) {
+					if ln == nil || wn == nil {
+						continue
+					}
+					// the mutex that guards both accesses (a type may have several)
+					mu := ""
+					for _, m := range mus {
+						if heldAt(g, ln, m) && heldAt(g, wn, m) {
+							// released in between under this mutex? take the first that is
+							mu = m
+							rel := false
+							for _, u := range g.Select(func(x *Node) bool {
+								cn := CallName(x)
+								if cn != "(*sync.Mutex).Unlock" && cn != "(*sync.RWMutex).Unlock" && cn != "(*sync.RWMutex).RUnlock" {
+									return false
+								}
+								if _, deferred := x.In.(deferredCall); deferred {
+									return false
+								}
+								r := RecvTerm(x)
+								return r != nil && r.Op == "field" && r.Name == m
+							}) {
+								uu := u
+								if g.PathAvoiding(ln.Succ, func(x *Node) bool { return x == uu }, nil) != nil && g.PathAvoiding(uu.Succ, func(x *Node) bool { return x == wn }, nil) != nil {
+									rel = true
+								}
+							}
+							if rel {
+								break
+							}
+						}
+					}
+					if mu == "" {
 						continue
 					}
 					isUnlock := func(x *Node) bool {
